@@ -1817,6 +1817,22 @@ def seed_C03(m):
         z = _zone_from_descr(inp["zone"])
         r = _c03_one(o, d, z, m["function"], {})
         return _descr(o, d, z, function=m["function"], extra={}, clause=r) if r else None
+    if m["function"] == "riseset":
+        # the raw scan disagreed: ask for both events of that date and its neighbours, in UTC and
+        # in zones either side of it
+        import zones
+        from astral import Observer
+        inp = m["input"]
+        o = Observer(inp["latitude"], inp["longitude"])
+        d0 = datetime.date.fromisoformat(inp["date"])
+        for dd in (0, 1, -1):
+            d = d0 + datetime.timedelta(days=dd)
+            for z in (zones.fixed(0), zones.fixed(60), zones.fixed(-60)):
+                for which in ("moonrise", "moonset"):
+                    r = _c03_one(o, d, z, which, {})
+                    if r:
+                        return _descr(o, d, z, function=which, extra={}, clause=r)
+        return None
     return _seed_sun_event(m, chk)
 
 
